@@ -94,6 +94,15 @@ def check(tier='quick', seed=0):
                 return fail(clause='Model.interpolate_to_grid: resistivity and conductivity models give different physical models', origin=off)
             if model.interpolate_to_grid(g1) is not model:
                 return fail(clause='identical grid must return the model itself')
+            # all six mappings describe the same medium: the interpolated medium must be the same, namely the volume average of log10(sigma)
+            sig = 1.0 / vals
+            want = 10 ** emg3d.maps.interpolate(g1, np.log10(sig), g2, method='volume')
+            for name in ('Conductivity', 'LgConductivity', 'LnConductivity', 'Resistivity', 'LgResistivity', 'LnResistivity'):
+                mp = getattr(emg3d.maps, 'Map' + name)()
+                got = mp.backward(emg3d.Model(g1, mp.forward(sig), mapping=name).interpolate_to_grid(g2).property_x)
+                if np.abs(got / want - 1).max() > 1e-9:
+                    return fail(clause='Model.interpolate_to_grid: the interpolated medium depends on the mapping (must be the volume average of log10 sigma)',
+                                mapping=name, origin=off, max_rel_dev=float(np.abs(got / want - 1).max()))
     # the transpose used for gradients: <interpolate(v), w> == <v, adj(w)> for a SEQUENCE of grid pairs in one process that share
     # the bounding box and the cell counts but differ in their interior nodes (and for pairs that differ in everything)
     try:
